@@ -27,6 +27,7 @@ def main():
     ap.add_argument('--tests', action='store_true')
     ap.add_argument('--tier', default='quick')
     ap.add_argument('--keep', action='store_true')
+    ap.add_argument('--replays', help='directory to keep replay files in')
     ap.add_argument('--repo', default='/repo')
     ap.add_argument('props', nargs='*')
     a = ap.parse_args()
@@ -50,7 +51,9 @@ def main():
                 print('SED-FAILED: %r not in %s' % (old, f))
                 return 3
             open(p, 'w').write(s.replace(old, new, 1))
-        env = dict(os.environ, QSTRADER_REPO=copy, PYTHONPATH=copy, PYTHONDONTWRITEBYTECODE='1')
+        env = dict(os.environ, QSTRADER_REPO=copy, PYTHONPATH=copy, PYTHONDONTWRITEBYTECODE='1',
+                   VERIF_EVIDENCE_DIR=os.path.join(work, 'evidence'),
+                   VERIF_REPLAY_DIR=a.replays or os.path.join(work, 'replays'))
         if a.tests:
             r = subprocess.run([PY, '-m', 'pytest', '-q', '-p', 'no:cacheprovider', '-x', '--timeout=900'],
                                cwd=copy, env=env, capture_output=True, text=True)
